@@ -178,7 +178,7 @@ impl Prop for C04 {
         "each evaluation = one group: one seeded workload and parameter set, created G times (G=3 quick, 6 thorough) under different schedule seeds and scheduler policies, worker counts 1..8, queue capacities, BufWriter capacities and benign I/O faults; oracle: all archives of a group are byte-identical (SHA-256 of the sim-disk file). distinct_nontrivial = distinct combined schedule-trace digests among groups with >=2 comparable archives and >=1 preemption."
     }
     fn runs(&self, tier: Tier) -> u64 {
-        match tier { Tier::Quick => 12_000, Tier::Thorough => 400_000 }
+        match tier { Tier::Quick => 12_000, Tier::Thorough => 250_000 }
     }
     fn run_chunk(&self, ctx: &Ctx, indices: &[u64]) -> Vec<RunReport> {
         let g = if ctx.tier == Tier::Quick { 3 } else { 6 };
